@@ -96,9 +96,9 @@ def _print_axioms_all(reg: dict) -> dict:
             r = subprocess.run(["lake", "env", "lean", path], cwd=core.LEAN_DIR, capture_output=True, text=True)
             out = r.stdout + r.stderr
             res = {}
-            for m in re.finditer(r"'([^']+)' depends on axioms: \[([^\]]*)\]", out):
+            for m in re.finditer(r"^'(.+)' depends on axioms: \[([^\]]*)\]", out, re.M):
                 res[m.group(1)] = [a.strip() for a in m.group(2).replace("\n", " ").split(",") if a.strip()]
-            for m in re.finditer(r"'([^']+)' does not depend on any axioms", out):
+            for m in re.finditer(r"^'(.+)' does not depend on any axioms", out, re.M):
                 res[m.group(1)] = []
             missing = [n for n in names if n not in res]
             if r.returncode != 0 or missing:
